@@ -3,14 +3,15 @@ from .. import cases, monitors, oracles
 from . import _align_common as ac
 
 TITLE = "Alignment results do not depend on the MIP back-end"
-DECIDING = ["M-SOLVER", "M-PART", "M-COVER", "M-EQ"]
+DECIDING = ["M-SOLVER", "M-PART", "M-COVER", "M-EQ", "M-OPT"]
 LEVEL = "exploration"
 RULE = ("every case = one continuum (small to medium: up to 2x40, 3x12, 4x6, 5x4 units; plus a block of 2x~180 and 3x~40 dense "
         "continua with 10 000 - 50 000 candidate unitary alignments, plus a sweep of 3-annotator continua through the point where a "
         "triple and a pair + singleton cost the same, in steps of 1/256, plus a block with delta_empty 1e-4 .. 1e-6, plus a corpus of continua whose programme has an integrality gap so that every back-end must branch) and one pooled dissimilarity, "
         "aligned (best and soft) under three solver configurations: cylp importable (CBC), `import cylp` raising "
         "ImportError (GLPK), CBC raising cvxpy.SolverError (fault injection, GLPK); a spy on cvxpy.Problem.solve "
-        "proves which solver ran; non-trivial = >= 2 units and >= 2 non-empty annotators; distinct by SHA-1")
+        "proves which solver ran; the order of the two kinds and of the three configurations varies from case to case; continua of at most 12 units are also "
+        "compared with the exact optimum (dynamic programme); non-trivial = >= 2 units and >= 2 non-empty annotators; distinct by SHA-1")
 ASSUMPTIONS = [
     "the 'failing' configuration is modelled by cvxpy.SolverError raised from Problem.solve when the CBC solver is "
     "requested (the error class the library itself anticipates)",
@@ -30,9 +31,18 @@ def check_case(ctx, case):
     cspec, dspec = case["continuum"], case["dissim"]
     dissim = pool.get(dspec)
     continuum = cases.build_continuum(cspec)
-    for kind, cover in (("best", False), ("soft", True)):
-        values = {}
-        for cfg in CONFIGS:
+    # the order in which the two kinds of alignment and the three configurations follow each other in the process varies from
+    # case to case (what an earlier call left behind must not matter)
+    kinds = [("best", False), ("soft", True)]
+    order_rng = __import__("random").Random(case.get("order_seed", 0))
+    if order_rng.random() < 0.5:
+        kinds.reverse()
+    all_values = {}
+    for kind, cover in kinds:
+        values = all_values[kind] = {}
+        cfgs = list(CONFIGS)
+        order_rng.shuffle(cfgs)
+        for cfg in cfgs:
             try:
                 al, solvers = ac.call_alignment(continuum, dissim, cfg, kind, spy)
             except Exception as e:
@@ -40,11 +50,12 @@ def check_case(ctx, case):
                 continue
             ctx.observe(f"solvers[{cfg}]", ",".join(solvers))
             if solvers != EXPECT[cfg]:
-                # the configuration did not exercise the back-end it is meant to: nothing can be concluded from it
+                # the configuration did not exercise the back-end it is meant to (recorded; the run is inconclusive if that is
+                # so for every case) - what it returned is judged all the same
                 ctx.observe("unexpected_solver_sequence", f"{cfg}:{solvers}")
                 ctx.count("solver-mismatch")
-                continue
-            ctx.count(f"cfg:{cfg}")
+            else:
+                ctx.count(f"cfg:{cfg}")
             ctx.count("M-COVER" if cover else "M-PART")
             pr = monitors.check_partition(continuum, al, cover=cover)
             if pr:
@@ -60,6 +71,20 @@ def check_case(ctx, case):
                     if not oracles.close_at_scale(a[0], b[0], dissim.delta_empty) or not oracles.close_at_scale(a[1], b[1], dissim.delta_empty):
                         ctx.fail(f"{kind}:optimum-differs:{cfg}", {"cbc": a, cfg: b, "what": "(reported, recomputed)"},
                                  monitor="M-EQ")
+    # "the same optimal disorder": on continua small enough for the exact dynamic programme every configuration is also compared
+    # with the independent optimum (all three could otherwise agree on a wrong answer)
+    if cases.spec_num_units(cspec) <= 12:
+        for kind, cover in kinds:
+            if not all_values.get(kind):
+                continue
+            opt = oracles.optimum(cspec, dissim, cover=cover, want="dp")
+            if not opt["methods"]:
+                continue
+            ctx.count("M-OPT")
+            for cfg, (reported, recomputed) in all_values[kind].items():
+                if not oracles.close_at_scale(recomputed, opt["value"], dissim.delta_empty):
+                    ctx.fail(f"{kind}:{cfg}:not-the-optimum", {"returned": recomputed, "independent_optimum": opt["value"], "configuration": cfg},
+                             monitor="M-OPT")
 
 
 def run(ctx):
@@ -123,7 +148,7 @@ def run(ctx):
         else:
             cspec = cases.gen_continuum(rng, n_annot=n, max_units=rng.randint(1, MAXU[n]),
                                         labels=labels or cases.LABELS_SMALL, min_total=2)
-        case = {"continuum": cspec, "dissim": dspec}
+        case = {"continuum": cspec, "dissim": dspec, "order_seed": rng.randrange(10 ** 6)}
         nonempty = sum(1 for us in cspec["ann"].values() if us)
         ctx.begin_case(case, nontrivial=cases.spec_num_units(cspec) >= 2 and nonempty >= 2)
         ac.observe_case(ctx, case)
